@@ -15,6 +15,23 @@ def pregen(check):
     gm = open(os.path.join(vcheck.REPO, "go.mod")).read()
     if not re.search(r"gonum\.org/v1/gonum v0\.9\.3\b", gm):
         check.broken.append("go.mod of the tree under test does not require gonum v0.9.3")
+    # (3) the harness's copy of gonum's aStarQueue (driven by the real container/heap to tie the Lean heap model) is
+    # textually the module's: compare with the source in the module cache
+    try:
+        with vcheck.Lock("go"):
+            d = subprocess.run(["go", "list", "-m", "-f", "{{.Dir}}", "gonum.org/v1/gonum"], cwd=vcheck.HARNESS, env=vcheck.GOENV,
+                               stdout=subprocess.PIPE, stderr=subprocess.STDOUT, text=True).stdout.strip().splitlines()[-1]
+        src = open(os.path.join(d, "graph", "path", "a_star.go")).read()
+        src = src[src.index("// aStarNode adds A* accounting"):].strip()
+        cp = open(os.path.join(vcheck.HARNESS, "cmd", "c19", "heapq.go")).read()
+        cp = cp[cp.index("// BEGIN verbatim copy"):cp.index("// END verbatim copy")]
+        cp = cp[cp.index("// aStarNode adds A* accounting"):].strip()
+        if src != cp:
+            check.broken.append("harness/cmd/c19/heapq.go: the copy of aStarQueue differs from gonum's graph/path/a_star.go")
+        if "heap.Push(open, aStarNode{node: v, gscore: g, fscore: g + h(v, t)})" not in open(os.path.join(d, "graph", "path", "a_star.go")).read():
+            check.broken.append("gonum's AStar loop is not the transliterated one")
+    except Exception as e:
+        check.broken.append("cannot compare the aStarQueue copy with gonum's source: %r" % (e,))
     args = ["go", "build", "-tags", "verif", "-o", os.devnull]
     if vcheck.REPO != "/repo":
         mod = open(os.path.join(vcheck.HARNESS, "go.mod")).read().replace("=> /repo", "=> " + vcheck.REPO)
